@@ -57,22 +57,37 @@ Section Interp.
 
   (* ---- customGen.maybeValue: fresh inner T on the same stream; only invalidData is swallowed;
      the inner T's cleanup runs last; non-fatal failures are forwarded to the parent T ---- *)
-  Definition custom_handler (r : result val) : M (option val) :=
+  (* what happens when the Custom function itself ends: the harness sees it return or panic; a value returned
+     after a non-fatal failure fails the test case at once (failOnError in maybeValue) *)
+  Definition custom_end (r : result val) : M val :=
     match r with
     | Err XFuel => throw XFuel
     | _ =>
         _ <- emit_u (UCustomEnd (match r with Ok _ => 0 | Err _ => 1 end)%nat) ;;
+        match r with
+        | Ok v => _ <- failOnError SCustomFOE ;; ret v
+        | Err e => throw e
+        end
+    end.
+  Definition custom_handler (r : result val) : M (option val) :=
+    match r with
+    | Err XFuel => throw XFuel
+    | _ =>
+        t0 <- get_ts ;;                               (* the recover runs before the inner T's cleanup *)
         c <- cleanup ;;
         match c, r with
         | Some e, Err (XInvalid m) => _ <- (if internal_msg m then mark_dirty else ret tt) ;; throw e
         | Some e, _ => throw e                       (* a panic raised during cleanup wins *)
         | None, Ok v => ret (Some v)
-        | None, Err (XInvalid _) => ret None
+        | None, Err (XInvalid m) =>
+            (* a skip does not undo a non-fatal failure signalled before it *)
+            match failed t0 with Some _ => throw (XInvalid m) | None => ret None end
         | None, Err e => throw e
         end
     end.
   Definition custom_inner (body : M val) : M (option val) :=
-    _ <- emit_u UCustomBegin ;; try_ body custom_handler.
+    _ <- emit_u UCustomBegin ;;
+    try_ (try_ body custom_end) custom_handler.
   Definition custom_att (body : M val) : M (option val) := with_fresh_T (custom_inner body).
 
   Definition gval (m : M val) : M val := group true m.       (* Generator.value *)
@@ -112,11 +127,14 @@ Section Interp.
              match r with
              | Ok s' => ret (ADone s')
              | Err (XInvalid m) =>
+                 t0 <- get_ts ;;
+                 match failed t0 with Some _ => throw (XInvalid m) | None =>   (* a skip does not undo a failure *)
                  if Nat.eqb (nd wa) 0
                  then (* the try stays in the recording and is replayed: that is only
                          faithful when the skip was the action's own decision *)
                       _ <- (if internal_msg m then mark_dirty else ret tt) ;; ret ASkipped
                  else ret ARejected
+                 end
              | Err e => throw e
              end).
   (* executeAction: up to validActionTries tries; a try that skipped before drawing is retried *)
